@@ -295,6 +295,17 @@ def s_value(kind, safe_text=False):
     raise ValueError(kind)
 
 
+
+_s_until_zero_offset = st.tuples(st.sampled_from([(2024, 1, 10), (2024, 7, 10), (1999, 12, 31)]), V._hms,
+                                 st.sampled_from(["Europe/London", "Europe/Lisbon", "Africa/Abidjan", "Atlantic/Reykjavik", "Etc/GMT", "Etc/UTC"])
+                                 ).map(lambda t: {"k": "zoned", "v": list(t[0]) + list(t[1]), "tz": t[2]})
+
+
+# UNTIL as an API user may give it (C02 only: in text an UNTIL has no zone): every kind; the zoned ones include zones standing at
+# offset zero (a zero timedelta is falsy, a zone at +00:00 is still not "UTC")
+s_until = st.one_of(V.s_date, V.s_naive, V.s_utc, V.s_zoned, _s_until_zero_offset)
+
+
 def _later(x, days):
     v = list(x["v"])
     v[0] += days + 0
